@@ -412,13 +412,28 @@ pub fn finish(ctx: &Ctx, shared: &Shared, check: &dyn StateCheck, fin: Finish) -
             }
             let (v1, p1) = replay_record(check, &r.text, r.key);
             let (v2, p2) = replay_record(check, &r.text, r.key);
-            let k1: Vec<String> = v1.iter().map(viol_key).collect();
-            let k2: Vec<String> = v2.iter().map(viol_key).collect();
-            let reproduced = k1.contains(&viol_key(&r.viol)) || (r.viol.clause == "no_panic" && p1.is_some());
+            // observations made on free-running child processes (feature "process") are outside the scheduler's
+            // control by design; identity is required of everything else
+            let controlled = |v: &&Viol| !v.features.iter().any(|f| f == "process");
+            let k1: Vec<String> = v1.iter().filter(controlled).map(viol_key).collect();
+            let k2: Vec<String> = v2.iter().filter(controlled).map(viol_key).collect();
+            // reproduced = the isolated execution under the recorded key shows the same violation; the same
+            // clause with the same trigger features counts (the text of an inline execution can differ when a
+            // lazily initialised table was built in the middle of it), and the replayed text is what is reported
+            let sig = |v: &Viol| format!("{}|{}", v.clause, v.features.join("+"));
+            let same_sig: Option<&Viol> = v1.iter().find(|v| sig(v) == sig(&r.viol));
+            let reproduced = k1.contains(&viol_key(&r.viol)) || same_sig.is_some() || (r.viol.clause == "no_panic" && p1.is_some());
+            let mut r = r.clone();
+            if !k1.contains(&viol_key(&r.viol)) {
+                if let Some(v) = same_sig {
+                    r.viol = v.clone();
+                }
+            }
+            let r = &r;
             if k1 != k2 || p1 != p2 || !reproduced {
                 eprintln!(
-                    "MACHINERY: replay of a violation diverged (clause {} key {:?}); first {:?} second {:?} original {:?}",
-                    r.viol.clause, r.key, k1, k2, viol_key(&r.viol)
+                    "MACHINERY: replay of a violation diverged (clause {} features {:?} key {:?}): two_replays_equal={} panics_equal={} reproduced={} replay_violations={} ; first {:?} second {:?} original {:?}",
+                    r.viol.clause, r.viol.features, r.key, k1 == k2, p1 == p2, reproduced, k1.len(), k1, k2, viol_key(&r.viol)
                 );
                 eprintln!("input:\n{}", r.text);
                 exit = 2;
